@@ -93,7 +93,9 @@ type Decoder struct {
 	simple bool
 	refer  decoderRefer
 	ref    []structInfo
-	Error  error
+	// granted counts the elements preallocated on the strength of wire counts (see prealloc)
+	granted int
+	Error   error
 	LongType
 	RealType
 	MapType
@@ -283,6 +285,7 @@ func (dec *Decoder) Reset() *Decoder {
 		dec.refer.Reset()
 	}
 	dec.ref = dec.ref[:0]
+	dec.granted = 0
 	return dec
 }
 
@@ -357,6 +360,7 @@ func (dec *Decoder) convertReference(o interface{}, p interface{}) {
 // ResetReader reuse decoder instance by specifying another reader.
 func (dec *Decoder) ResetReader(reader io.Reader) *Decoder {
 	dec.reader = reader
+	dec.granted = 0
 	dec.head = 0
 	dec.tail = 0
 	return dec
@@ -366,6 +370,7 @@ func (dec *Decoder) ResetReader(reader io.Reader) *Decoder {
 func (dec *Decoder) ResetBytes(input []byte) *Decoder {
 	dec.reader = nil
 	dec.buf = input
+	dec.granted = 0
 	dec.head = 0
 	dec.tail = len(input)
 	return dec
@@ -420,7 +425,19 @@ func (dec *Decoder) prealloc(count int) int {
 		return 0
 	}
 	if limit := dec.tail - dec.head + 1024; count > limit {
-		return limit
+		count = limit
+	}
+	// the input that is buffered justifies one allocation of its size, not one per level of
+	// nesting: what has been granted before is charged, beyond it a container starts small.
+	const small = 8
+	if count > small {
+		if room := dec.tail - dec.head + 1024 - dec.granted; count > room {
+			if room < small {
+				room = small
+			}
+			count = room
+		}
+		dec.granted += count
 	}
 	return count
 }
